@@ -120,7 +120,7 @@ def main():
     args = ap.parse_args()
     os.makedirs(os.path.join(VERIF, '.scratch'), exist_ok=True)
     todo = [(n, p) for n, p in mutants()
-            if not args.only or args.only in n]
+            if not args.only or re.search(args.only, n)]
     shards = max(2, 16 // max(1, min(args.jobs, len(todo))))
     with ThreadPoolExecutor(max_workers=args.jobs) as ex:
         results = list(ex.map(
@@ -132,6 +132,9 @@ def main():
         old = {r['mutant']: r for r in json.load(open(path))}
     for r in results:
         old[r['mutant']] = r
+    # (results of mutants that were retired since are dropped)
+    present = set(n for n, _ in mutants())
+    old = {k: v for k, v in old.items() if k in present}
     allr = [old[k] for k in sorted(old)]
     json.dump(allr, open(path, 'w'), indent=1)
     lines = ['# Mutation self-test results', '',
